@@ -143,7 +143,7 @@ pub fn gen_plan(seed: u64, mixed_kinds: bool) -> GatherPlan {
             let nc = if r.chance(5) { 9 + r.below(12) as usize } else { r.below(5) as usize };
             // prefix relations, control characters and separators-to-be: the order of samples must be
             // the lexicographic order of the value tuples, whatever bytes the values contain
-            let pool = ["", "a", "b", "ab", "B", "é", "10", "9", "a\n", "a\t", "a\u{1f}", "a\u{1f}b", "\u{0}", "a\u{0}", "a b", "a,b", "a\u{ff}"];
+            let pool = ["", "a", "b", "ab", "B", "é", "10", "9", "a\n", "a\t", "a\u{1f}", "a\u{1f}b", "\u{0}", "a\u{0}", "a b", "a,b", "a\u{ff}", "/api/v1/organizations/acme/projects/00001", "/api/v1/organizations/acme/projects/00002", "/api/v1/organizations/acme/projects/00003"];
             let mut seen = vec![];
             for _ in 0..nc {
                 let vals: Vec<String> = spec.vars.iter().map(|_| r.pick(&pool).to_string()).collect();
